@@ -2,9 +2,8 @@ package main
 
 // C07 / C08 — case generators (all random choices from one splitmix64 state).
 //
-// Universe: ids p1 p2 p3 (created through the parent store only), c1 c2 (created through the child
-// store only — creating child data over an existing plain parent entity is C03/C15's subject),
-// zz (never exists), "" (blank); names n1..n6, "", 32768 / 32769 bytes; role lists incl. an empty
+// Universe: ids p1 p2 p3 p4 (created through the parent store; child data may be created over them through
+// the child store later), c1 c2 (created through the child store), zz (never exists), "" (blank); names n1..n6, "", 32768 / 32769 bytes; role lists incl. an empty
 // element (bucket name required), a 32768-byte element (list key too large), a 32767-byte element
 // (largest usable), duplicates and unsorted input; refs nil, "", existing, missing, self.
 
@@ -137,11 +136,13 @@ func opDeleteWhere(store byte, query, qname string) txStep {
 	return txStep{kind: "op", fault: "-", op: "dw", store: store, query: query, qname: qname}
 }
 
-// base population: p1 plain (name n1, roles [r]); c1 with child data (name n2, ref p1, rank k1)
+// base population: p1 plain (name n1, roles [r]), referenced by c1; c1 with child data (name n2, ref p1,
+// rank k1); p4 plain, not referenced (name n0, roles [t])
 func txSetupTx() txTx {
 	return txTx{mode: 'u', steps: []txStep{
 		opCreate('P', "p1", "n1", []string{"r"}, nil, ""),
 		opCreate('C', "c1", "n2", nil, sp("p1"), "k1"),
+		opCreate('P', "p4", "n0", []string{"t"}, nil, ""),
 	}}
 }
 
@@ -169,6 +170,11 @@ func txGoodOps() []txStep {
 		opDelete('C', "c1"),
 		opDelete('P', "p1"),
 		opDelete('C', "p1"),
+		// child data created over an existing plain parent entity (its parent fields are replaced)
+		opCreate('C', "p4", "n7", []string{"t", "r"}, sp("p1"), "k5"),
+		opUpdate('P', "p4", "n8", nil, nil, ""),
+		opDelete('P', "p4"),
+		opDelete('C', "p4"),
 		opDeleteWhere('C', "all", ""),
 		opDeleteWhere('P', "name", "n2"),
 		opDeleteWhere('P', "all", ""),
@@ -179,7 +185,16 @@ func txGoodOps() []txStep {
 var txFailKinds = []string{
 	"caller", "pre", "dup", "fk", "null", "emptyrole", "bigrole", "bigname", "blank", "exists", "missing", "refexists",
 	"vetoP", "vetoC", "vetoPtyped", "lP1", "lP2", "lP3", "lC1", "lC2", "pP1", "pC1", "badquery",
+	// the veto is a *boltz.RecordNotFoundError
+	"vetoPnf", "vetoCnf",
+	// index-stage vetoes: a custom boltz.Constraint registered with AddConstraint on the parent (ixP) or
+	// on the child store (ixC) vetoes the operation's id in ProcessBeforeUpdate (b), ProcessAfterUpdate (a),
+	// ProcessBeforeDelete (d); upper case: with a *boltz.RecordNotFoundError
+	"ixPb", "ixPa", "ixPd", "ixCb", "ixCa", "ixCd", "ixPB", "ixPA", "ixPD", "ixCB", "ixCA", "ixCD",
 }
+
+// the entity a DeleteWhere of the good operations deletes first on the base population
+const txDeleteWhereFirst = "c1"
 
 func txOpKindChar(s txStep) byte {
 	switch s.op {
@@ -202,6 +217,10 @@ func txInject(c *txCase, body []txStep, i int, kind string) ([]txStep, bool) {
 		return append(res, out[i:]...)
 	}
 	write := s.op == "cr" || s.op == "up"
+	vetoId := s.id
+	if s.op == "dw" {
+		vetoId = txDeleteWhereFirst
+	}
 	switch kind {
 	case "caller":
 		return insert(txStep{kind: "fail", tag: 7}), true
@@ -264,20 +283,29 @@ func txInject(c *txCase, body []txStep, i int, kind string) ([]txStep, bool) {
 			return nil, false
 		}
 		s.id = "p1"
-	case "vetoP", "vetoPtyped":
-		if s.op == "dw" {
-			return nil, false
-		}
+	case "vetoP", "vetoPtyped", "vetoPnf":
 		style := byte('u')
-		if kind == "vetoPtyped" {
+		switch kind {
+		case "vetoPtyped":
 			style = 't'
+		case "vetoPnf":
+			style = 'U'
 		}
-		c.regsP = append(c.regsP, txReg{style: style, vetoes: []txVeto{{kind: txOpKindChar(s), id: s.id}}})
-	case "vetoC":
-		if s.op == "dw" {
-			return nil, false
+		c.regsP = append(c.regsP, txReg{style: style, vetoes: []txVeto{{kind: txOpKindChar(s), id: vetoId}}})
+	case "vetoC", "vetoCnf":
+		style := byte('t')
+		if kind == "vetoCnf" {
+			style = 'T'
 		}
-		c.regsC = append(c.regsC, txReg{style: 't', vetoes: []txVeto{{kind: txOpKindChar(s), id: s.id}}})
+		c.regsC = append(c.regsC, txReg{style: style, vetoes: []txVeto{{kind: txOpKindChar(s), id: vetoId}}})
+	case "ixPb", "ixPa", "ixPd", "ixCb", "ixCa", "ixCd", "ixPB", "ixPA", "ixPD", "ixCB", "ixCA", "ixCD":
+		// next to a constraint that never objects, so that the vetoing one is not the first of its store
+		reg := []txIxVeto{{stage: kind[3], id: vetoId}}
+		if kind[2] == 'P' {
+			c.ixP = append(c.ixP, nil, reg)
+		} else {
+			c.ixC = append(c.ixC, reg, nil)
+		}
 	case "lP1", "lP2", "lP3", "lC1", "lC2", "pP1", "pC1":
 		s.fault = kind
 	case "badquery":
@@ -294,7 +322,11 @@ func txInject(c *txCase, body []txStep, i int, kind string) ([]txStep, bool) {
 
 // failure kinds after which a transaction may go on (nothing, or everything, of the operation was
 // written): used with a swallowed error
-var txExactKinds = map[string]bool{"vetoP": true, "vetoC": true, "vetoPtyped": true, "blank": true, "exists": true, "missing": true, "badquery": true}
+var txExactKinds = map[string]bool{"vetoP": true, "vetoC": true, "vetoPtyped": true, "vetoPnf": true, "vetoCnf": true,
+	"blank": true, "exists": true, "missing": true, "badquery": true,
+	// an index-stage veto before the update leaves everything as it was, one after the write leaves
+	// everything written (one before the delete comes after the built-in indexes removed their entries)
+	"ixPb": true, "ixPa": true, "ixCb": true, "ixCa": true, "ixPB": true, "ixPA": true, "ixCB": true, "ixCA": true}
 
 // txFaultCase: setup tx, then the faulty body in the given mode (with a commit action registered at
 // its start and a harmless pre-commit action), then a follow-up transaction that must still work.
@@ -309,6 +341,23 @@ func txFaultCase(body []txStep, pos int, kind string, mode byte, reuse bool, swa
 		if !txExactKinds[kind] || steps[pos].kind != "op" {
 			return "", false
 		}
+		// a "before update" veto on a create of child data over an existing parent entity leaves the empty
+		// bucket of the child path behind
+		if steps[pos].op == "cr" && (kind == "ixPb" || kind == "ixPB") {
+			return "", false
+		}
+		// a veto on the create of p4 on the parent store's side also strikes the setup transaction: the
+		// operation then meets an empty database and may fail in the middle of its writes
+		if steps[pos].op == "cr" && steps[pos].id == "p4" &&
+			(strings.HasPrefix(kind, "vetoP") || kind == "ixPa" || kind == "ixPA") {
+			return "", false
+		}
+		// the swallowed failure must be the injected one: a write that goes on must not fail for a missing
+		// fk target (its ref is dropped), a delete not for a reference to the entity (p1 is referenced by c1)
+		if steps[pos].op == "de" && steps[pos].id == "p1" {
+			return "", false
+		}
+		steps[pos].f.ref = nil
 		steps[pos].swallow = true
 	}
 	full := []txStep{{kind: "ac", tag: 1}, {kind: "ap", tag: 2}}
@@ -334,7 +383,7 @@ func txEnumFaults(n int, modes []byte, emit func(string)) {
 // route that has a child flow, and the plain-parent counterparts
 func txCoreOps() []txStep {
 	ops := txGoodOps()
-	return []txStep{ops[0], ops[1], ops[3], ops[5], ops[8], ops[9]}
+	return []txStep{ops[0], ops[1], ops[3], ops[5], ops[8], ops[13]}
 }
 
 func txEnumFaultsOver(ops []txStep, n int, modes []byte, emit func(string)) {
@@ -390,12 +439,30 @@ func txRandomRegs(r *rng, max int, ids []string) []txReg {
 			}
 			regs = append(regs, txReg{listener: true, style: "tfui"[r.intn(4)], types: types})
 		} else {
-			reg := txReg{style: "tu"[r.intn(2)]}
+			reg := txReg{style: "tuTU"[r.intn(4)]}
 			for v := r.intn(3); v > 0; v-- {
 				reg.vetoes = append(reg.vetoes, txVeto{kind: "cud"[r.intn(3)], id: pick(r, ids)})
 			}
 			regs = append(regs, reg)
 		}
+	}
+	return regs
+}
+
+// custom index-stage constraints for a random case; `safe`: only vetoes after which a transaction may go on
+func txRandomIxRegs(r *rng, max int, ids []string, safe bool) [][]txIxVeto {
+	n := r.intn(max + 1)
+	var regs [][]txIxVeto
+	stages := "badBAD"
+	if safe {
+		stages = "baBA"
+	}
+	for i := 0; i < n; i++ {
+		var vs []txIxVeto
+		for v := r.intn(3); v > 0; v-- {
+			vs = append(vs, txIxVeto{stage: stages[r.intn(len(stages))], id: pick(r, ids)})
+		}
+		regs = append(regs, vs)
 	}
 	return regs
 }
@@ -475,6 +542,10 @@ func txRandomOp(r *rng, p txProfile, safe bool, live txLive) txStep {
 			s = txStep{kind: "op", op: "cr", store: 'P', id: id, f: txRandomFields(r, p, safe, id)}
 		} else {
 			id := live.pickAbsent(r, txIdsC)
+			if !safe && r.chance(1, 4) {
+				// child data over a plain parent entity (if it is there)
+				id = live.pick(r, txIdsP)
+			}
 			s = txStep{kind: "op", op: "cr", store: 'C', id: id, f: txRandomFields(r, p, safe, id), rank: pick(r, []string{"k1", "k2", ""})}
 		}
 		live[s.id] = true
@@ -524,6 +595,10 @@ func txRandomCase(r *rng, p txProfile) string {
 	}
 	// a case with swallowed errors keeps to values that cannot fail in the middle of a write
 	safe := p.swallow && r.chance(1, 3)
+	if r.chance(1, 2) {
+		c.ixP = txRandomIxRegs(r, 2, txIdsAll, safe)
+		c.ixC = txRandomIxRegs(r, 2, txIdsAll, safe)
+	}
 	for t := 0; t < ntx; t++ {
 		tx := txTx{mode: 'u', reuse: r.chance(1, 3)}
 		if r.intn(100) < p.batch {
@@ -652,7 +727,7 @@ func txGenCommon(tier string, seed uint64, out *bufio.Writer, faultQuick, faultT
 	ops := txGoodOps()
 	nSample := faultQuick
 	if tier == "thorough" {
-		nSample = faultQuick * 8
+		nSample = faultQuick * 10
 	}
 	for i := 0; i < nSample; i++ {
 		n := 2 + r.intn(4)
